@@ -164,6 +164,11 @@ impl Prop for C10 {
         sim.store.clear_log();
         let t_start = interpose::clock_now();
         type Pair = (RusticResult<Option<SnapshotFile>>, RusticResult<Option<SnapshotFile>>);
+        // a command that gives up with Err (allowed, see below) leaves TreeStreamerOnce loader threads whose
+        // send().unwrap() panics once the consumer is gone: such background panics are judged after the
+        // results are known (flagged only when both commands returned Ok)
+        sim.strict_bg_panics = false;
+        let bg0 = sim.bg_panics.len();
         let r: Cmd<Pair> = sim.run(&mode, move || {
             let do_backup = |actor: u32, m: FsModel, label: &'static str| -> RusticResult<Option<SnapshotFile>> {
                 let repo = repo_open(&store, actor, &key)?.to_indexed_ids()?;
@@ -203,6 +208,17 @@ impl Prop for C10 {
                 return rep;
             }
         };
+        sim.strict_bg_panics = true;
+        if sim.bg_panics.len() > bg0 {
+            if ra.is_ok() && rb.is_ok() {
+                let p = sim.bg_panics[bg0].clone();
+                rep.violation(format!("C10/{}-panic:{}", s.kind, common::classify(&common::short_loc(&p))), format!("panic of a library thread although both commands returned Ok: {p}"));
+                sim.finish_report(&mut rep);
+                rep.trace = sim.trace.clone();
+                return rep;
+            }
+            rep.fire("background_thread_panic_after_a_command_gave_up", (sim.bg_panics.len() - bg0) as u64);
+        }
         let mut evaluations = 0u64;
         let mut new_models: BTreeMap<String, FsModel> = BTreeMap::new();
         for (res, who, m) in [(&ra, "A", &ma), (&rb, "B", &mb)] {
